@@ -12,7 +12,7 @@ RULE = ('one run = one generated engine, 0-4 targets, scripted workers, and a ch
         'submit endpoints with git/compliance outcomes, resets, run requests, injected not-allowed triggers) interleaved with the completion of background steps; '
         'non-trivial = at least 4 observed state transitions beyond boot, one scheduler reordering and one accepted submission, reload or injected trigger; distinct = event-log digest')
 LN = ('trusted: the simulator kernel, scripted workers, the hand-transcribed reference automaton, the scripted git and compliance outcomes; '
-      'pool-thread bodies are atomic between blocking calls (no line-level pre-emption)')
+      'background steps are pre-empted at chooser-chosen lines of the life-cycle/farm/scheduler/submit modules (sys.settrace, at most 4 per thread) and at database open/close; everything else inside a pool-thread body is atomic')
 
 SUBMIT_MIX = dict(run=4, rerun_executing=0, add_target=1, run_all=1, run_empty=0, update=0, submit=7, reset=1, bad_trigger=0)
 
